@@ -69,6 +69,7 @@ func RunC18(ep *core.Episode) {
 		S.Yield("handler-gate") // the scheduler decides when the handler finishes
 		if tp.Choose("hsleep", 4) == 0 {
 			time.Sleep(5 * time.Millisecond)
+			S.Yield("handler-after-sleep") // sleepers wake at the same instant: serialise them again
 		}
 		hmu.Lock()
 		running--
@@ -118,6 +119,7 @@ func RunC18(ep *core.Episode) {
 	runReturned := false
 	runTask := S.Go("run", func() {
 		runErr = eng.Run()
+		S.Yield("after-run")
 		runReturned = true
 	})
 
@@ -207,6 +209,7 @@ func RunC18(ep *core.Episode) {
 		t0 := time.Now()
 		shutErr = eng.Shutdown(context.Background())
 		shutDur = time.Since(t0)
+		S.Yield("after-shutdown")
 		shutReturned = true
 		ep.Logf("  shutdown returned %v after %v", shutErr, shutDur)
 		ep.Sig("shutdown-returned")
@@ -223,6 +226,7 @@ func RunC18(ep *core.Episode) {
 			}
 			hmu.Unlock()
 			shutErr2 = eng.Shutdown(context.Background())
+			S.Yield("after-shutdown2")
 			ep.Logf("  second shutdown (engine running at call: %v) returned %v", secondWasRunning, shutErr2)
 		})
 		ep.Probe("second-shutdown")
